@@ -176,6 +176,12 @@ def name_index():
     return _NAME_INDEX
 
 
+def key_number(sgmod, key):
+    """the space-group number an accepted name stands for: taken from the table the public lookup returns for it (the
+    value stored in the name dictionary - 'Sg14', 14, a class ... - is an implementation detail)"""
+    return int(sgmod.sg(sgname=key).no)
+
+
 def table_by_name(key):
     """name -> Table.  The name is resolved through the names the sglib classes carry (so that a wrong entry of sg.sgdic
     cannot hide from the oracles of C07, C08, C15, C17); sg.sgdic is used only for a spelling no class answers to"""
@@ -185,8 +191,7 @@ def table_by_name(key):
         no, setting = next(iter(hit))
         return Table(no, setting)
     from xfab import sg as sgmod
-    no = int(sgmod.sgdic[k][2:])
-    return Table(no, "rhombohedral" if (k[0] == "r" and k[-1] == "r") else "standard")
+    return Table(key_number(sgmod, k), "rhombohedral" if (k[0] == "r" and k[-1] == "r") else "standard")
 
 
 def install_invariant(ctx):
@@ -302,7 +307,7 @@ def case_by_number(ctx, p):
 def case_by_name(ctx, p):
     mon = ctx.mon
     key = p["key"]
-    no = int(ctx.sgmod.sgdic[key][2:])
+    no = key_number(ctx.sgmod, key)
     rh = (key[0] == "r" and key[-1] == "r") or p["cell_choice"] == "rhombohedral"
     setting = "rhombohedral" if rh else "standard"
     try:
@@ -333,10 +338,12 @@ def case_by_name(ctx, p):
 
 
 def case_dict_entry(ctx, p):
+    """every accepted name is a spelling of the name carried by the table it leads to, and that table's own name leads back to
+    it (through the public lookup: how the name dictionary stores its targets is the library's business)"""
     mon = ctx.mon
     key = p["key"]
-    klass_name = ctx.sgmod.sgdic[key]
-    no = int(klass_name[2:])
+    no = key_number(ctx.sgmod, key)
+    klass_name = "Sg%d" % no
     bad = []
     klass = getattr(ctx.sglib, klass_name, None)
     if klass is None:
@@ -346,9 +353,12 @@ def case_dict_entry(ctx, p):
             obj = klass(cell_choice=cc)
             if obj.no != no:
                 bad.append("%s(cell_choice=%r).no = %r" % (klass_name, cc, obj.no))
-            back = "".join(str(obj.name).split()).lower()
-            if ctx.sgmod.sgdic.get(back) != klass_name:
-                bad.append("name %r of %s does not map back (sgdic[%r] = %r)" % (obj.name, klass_name, back, ctx.sgmod.sgdic.get(back)))
+            try:
+                back = ctx.sgmod.sg(sgname=str(obj.name)).no
+            except Exception as exc:
+                back = repr(exc)
+            if back != no:
+                bad.append("name %r of %s does not lead back to it (sg(sgname=%r).no = %r)" % (obj.name, klass_name, obj.name, back))
     if klass is not None:
         # the key itself must be a spelling of the name the class carries (R groups: bare, ...h or ...r)
         std = "".join(str(klass(cell_choice="standard").name).split()).lower()
